@@ -196,7 +196,7 @@ def run_class_case(ci, pool):
 
 
 # ---- special shapes: bundles, observed-data containers, markings, toplevel-property extensions, datetime inputs in other zones
-NSPECIAL = 18
+NSPECIAL = 20
 
 
 def special_shapes(si: int) -> bool:
@@ -351,6 +351,49 @@ def run_special_case(si):
                 if rr is not True:
                     return (ver, list(cp)) + rr
         return True
+    if si in (18, 19):
+        # classes that have never been instantiated in this process (types registered here), whose FIRST instance carries a registered
+        # toplevel-property extension with defaulted properties; later instances without the extension hold custom properties of the same names
+        # with the default values (si 18), or the other way round (si 19).  Whatever an instance holds is written and read back.
+        from stix2 import registry
+        saved = {ver: {cat: dict(m) for cat, m in cats.items()} for ver, cats in registry.STIX2_OBJ_MAPS.items()}
+        try:
+            n = len(registry.STIX2_OBJ_MAPS["2.1"]["extensions"])
+            ext = "extension-definition--c01c01c0-f010-4473-83ec-1edf8485%04x" % (n + si)
+
+            @stix2.v21.CustomExtension(ext, [("x_level", P.IntegerProperty(default=lambda: 0)), ("x_on", P.BooleanProperty(default=lambda: False)),
+                                             ("x_tag", P.StringProperty(default=lambda: "none"))])
+            class Dflt(object):
+                extension_type = "toplevel-property-extension"
+
+            @stix2.v21.CustomObject("x-fresh-%d" % (n + si), [("name", P.StringProperty(required=True))])
+            class Fresh(object):
+                pass
+
+            @stix2.v21.CustomObservable("x-fresh-sco-%d" % (n + si), [("name", P.StringProperty(required=True))], ["name"])
+            class FreshSco(object):
+                pass
+            with_ext = lambda cls: cls(name="a", extensions={ext: {"extension_type": "toplevel-property-extension"}})      # noqa: E731
+            coincide = lambda cls: cls(name="b", x_level=0, x_on=False, x_tag="none", allow_custom=True)                     # noqa: E731
+            for cls in (Fresh, FreshSco):
+                order = (with_ext, coincide, with_ext, coincide) if si == 18 else (coincide, with_ext, coincide)
+                for mk in order:
+                    o = mk(cls)
+                    j = json.loads(o.serialize())
+                    if mk is coincide and (j.get("x_level") != 0 or j.get("x_on") is not False or j.get("x_tag") != "none"):
+                        return ("custom properties that coincide with an extension's defaults were not written", sorted(j))
+                    back = stix2.parse(o.serialize(), allow_custom=True)
+                    if type(back) is not cls or back != o or back.serialize() != o.serialize():
+                        return ("fresh class", cls.__name__, mk is coincide)
+                    full = json.loads(o.serialize(include_optional_defaults=True))
+                    if mk is with_ext and (full.get("x_level") != 0 or full.get("x_tag") != "none"):
+                        return ("extension defaults missing from the include_optional_defaults form",)
+            return True
+        finally:
+            for ver, cats in saved.items():
+                for cat, m in cats.items():
+                    registry.STIX2_OBJ_MAPS[ver][cat].clear()
+                    registry.STIX2_OBJ_MAPS[ver][cat].update(m)
     if si in (15, 16):
         from stix2 import registry
         saved = {ver: {cat: dict(m) for cat, m in cats.items()} for ver, cats in registry.STIX2_OBJ_MAPS.items()}
